@@ -31,6 +31,9 @@ ASSUMPTIONS = [
     'range_lookup TRUE and MATCH type -1 are not generated',
 ]
 
+# texts that START with a comparison character (cells and operands; only
+# under = and <>, where no collation of punctuation is involved)
+OPWORDS = ['>3', '<b', '>=1', '<>x', '>', '<']
 WORDS = ['foo', 'Bar', 'qux', 'zed', 'FOO', 'bar', 'kiwi', 'plum',
          # blanks at either end or inside are part of the text
          'foo ', ' foo', 'ba r', 'Bar ']
@@ -65,6 +68,12 @@ def src(v):
 
 
 def _crit(d, col):
+    if d.chance(1, 10):
+        # "=>3" is: equal to the text ">3"
+        w = d.choice(OPWORDS)
+        if col and d.pick(2):
+            col[d.pick(len(col))] = w
+        return ['s', d.choice(['=', '<>']) + w]
     op = d.choice(OPS)
     if d.pick(3) and col:
         v = val(d.choice(col))
